@@ -41,7 +41,7 @@ HTypes  == {"root", "share", "mux", "ui", "search", "jsonsign", "sync", "status"
 Public    == {"root", "share", "mux"}
 Protected == HTypes \ Public
 Methods == {"GET", "HEAD", "POST", "PUT", "DELETE"}
-Creds   == {"none", "bad", "good"}
+Creds   == {"none", "bad", "good", "wsnone", "wsempty", "wsbad"}   \* ws*: websocket upgrade request with no / an empty / a wrong authtoken, asked before any authenticated discovery
 Subs    == {"root", "disco", "stat", "enum", "blob", "upload", "remove", "query", "describe", "sign",
             "sigdisc", "pubkey", "status", "debugx", "ref", "shareref", "download", "cmdline"}
 Classes == {"content", "refused", "ok", "redirect", "clienterr", "servererr", "panic"}
